@@ -379,4 +379,14 @@ pub async fn plan_compaction(""", expect="mutator:dataset::optimize::drop_old_fi
                 update_mode,
             } => pb::transaction::Operation::Update(pb::transaction::Update {
                 fields_modified: vec![],""", expect="Update.fields_modified"),
+    # ------------------------------------------------------------------ C42
+    dict(name="c42_absolute_data_path", prop="C42", file="rust/lance/src/dataset/write.rs", what="data files recorded with their full path",
+         old="""        let writer_adapter = V2WriterAdapter {
+            writer: file_writer,
+            path: filename,""",
+         new="""        let writer_adapter = V2WriterAdapter {
+            writer: file_writer,
+            path: full_path.to_string(),""", expect="adapter-path:V2WriterAdapter"),
+    dict(name="c42_txn_full_path", prop="C42", file=LC, what="manifest records the full transaction-file path",
+         old="    Ok(file_name)\n}", new="    Ok(path.to_string())\n}", expect="returned-name"),
 ]
